@@ -211,6 +211,9 @@ class G:
         if small:
             a = r.choice([0, 1, 1, 1, 2, 3, -1])
             b = a + r.choice([0, 1, 2, 3, 4, -1, 5])
+            if r.random() < 0.03:           # ranges ending at INT64_MAX (finding F45, repaired: regression coverage)
+                b = I64MAX
+                a = b - r.choice([0, 1, 2])
             lo, hi = self.lit(a), self.lit(b)
         else:
             lo = self.gen_int(d, "offset", s)
@@ -328,8 +331,11 @@ class G:
         return ("cmp", r.choice(CMPS), self.int_leaf(), self.int_leaf(), "i")
 
     def as_body(self, e):
-        """loop bodies are kept boolean-typed (integer-typed bodies are the known finding F43: corpus only)"""
+        """loop bodies of any type: integer / string valued bodies and `or` with an integer left operand count once
+        when true (finding F43, repaired: regression coverage); half of them are wrapped into a boolean"""
         t = self.ty(e)
+        if self.r.random() < 0.5:
+            return e
         if t == "i":
             return ("cmp", "neq", e, ("int", 0), "i")
         if t == "s" or not self.vm_boolish(e):
